@@ -8,3 +8,8 @@ package local
 func Verif_C04_R3_FlatGet()         { verifScenarioFlatGet() }
 func Verif_C04_R3_FlatPut()         { verifScenarioFlatPut() }
 func Verif_C04_R3_FlatFindMissing() { verifScenarioFlatFindMissing() }
+
+// ... and hierarchical store.
+func Verif_C04_R3_HierGet()         { verifScenarioHierGet() }
+func Verif_C04_R3_HierPut()         { verifScenarioHierPut() }
+func Verif_C04_R3_HierFindMissing() { verifScenarioHierFindMissing() }
